@@ -327,6 +327,7 @@ def check(prog, res, tier):
         hdr_seen['n'], 'a rejection of a message before its bitmap is examined'))
 
     cursor_names = set()
+    true_cursor = set()       # the local(s) that chk_d found equal to the length of the element data on accepting paths
 
     def chk_d(p, mode):
         if p.outcome != 'return':
@@ -358,6 +359,9 @@ def check(prog, res, tier):
         for d in datas:
             for c in cands:
                 if st.decide_eq0(c.lin - d.length()) is True:
+                    for n_, v_ in loc.items():
+                        if v_ is c:
+                            true_cursor.add(n_)
                     return []
         d, c = datas[0], cands[0]
         diff = c.lin - d.length()
@@ -366,6 +370,53 @@ def check(prog, res, tier):
                         neg=[[diff - 1], [-diff - 1]])]
     res.add(du.loads.judge('C08.d', 'a message is accepted only when the cursor equals the length of the message data',
                            func_where(dfi), 'if message_pointer != len(message_data): raise', chk_d))
+
+    # ---- C08.d (converse) when the walk ends exactly at the end of the message the message is accepted
+    def chk_d_conv(p, mode):
+        if p.outcome != 'raise' or not true_cursor:
+            return []
+        exc = p.value
+        node = getattr(exc, 'raise_node', None)
+        if exc.op is not None or not isinstance(node, ast.Raise):
+            return []
+        par = node
+        while par is not None:
+            par = getattr(par, '_parent', None)
+            if isinstance(par, (ast.ExceptHandler, ast.For, ast.While)):
+                return []          # a converted failure, or a refusal inside the element walk
+        rv = [e for e in p.events if e.kind == 'raise' and e.data['exc'] is exc]
+        if not rv or not rv[-1].stack or rv[-1].stack[-1] != dfi.short:
+            return []
+        if not any(e.kind in ('loop-exit', 'loop-end-snap') and dfi.short in e.stack and e.seq < rv[-1].seq for e in p.events):
+            return []              # before or without the walk
+        loc = rv[-1].data.get('locals') or {}
+        msg = p.interp.user['message']
+        if not (isinstance(msg, SeqV) and len(msg.segs) == 1 and hasattr(msg.segs[0], 'src')):
+            return []
+        n = msg.segs[0].src.length
+        hb = p.interp.binds.get(('truth', 'hex_bitmap'))
+        if hb is None:
+            return []
+        need = 36 if hb else 20
+        st = p.store
+        for name in sorted(true_cursor):
+            c = loc.get(name)
+            if not isinstance(c, IntV):
+                continue
+            gap = c.lin - (n - need)
+            trial = st.copy()
+            try:
+                trial.assume_eq0(gap)
+            except Infeasible:
+                continue
+            return [Failure(f'the message is refused after the walk ({norm_text(node)[:70]}) although the cursor {name} stands exactly at '
+                            f'the end of the message: len(message) - {need} bytes of element data were consumed, nothing is left over',
+                            node=node, neg=[[gap, -gap]])]
+        return []
+    chk_d_conv.check_abandoned = False
+    res.add(du.loads.judge('C08.d', 'a message whose elements tile its data exactly is not refused by the final length check',
+                           func_where(dfi), 'if message_pointer != len(message_data): raise', chk_d_conv, rule='C08.d.converse'))
+
 
     res.add(flagged_parsed_ob(prog, res, du, dfi))
 
